@@ -175,6 +175,44 @@ def make_tls(rng, i, ctx):
     return cases
 
 
+def fitlin_cases(rng, n, ctx):
+    """fit_lin dispatches on the type of x: observables -> total least squares (their errors count, however small), numbers -> ordinary fit"""
+    cases = []
+    for i in range(n):
+        npts = int(rng.integers(4, 8))
+        slope = float(rng.choice([0.7, -2.0, 3e4, 1e-3]))
+        icpt = float(np.round(rng.uniform(-1, 2), 2))
+        xs = np.sort(np.round(rng.uniform(0.5, 4.0, size=npts), 2))
+        relx = float(rng.choice([1e-2, 1e-4, 1e-5, 1e-7]))
+        ys = fitgen.data_points(rng, icpt + slope * xs, 'independent', npts)
+        [o.gamma_method() for o in ys]
+        form = str(rng.choice(['obs', 'obs', 'floats', 'array', 'ints']))
+
+        def f(a, x):
+            return a[0] + a[1] * x
+        try:
+            if form == 'obs':
+                xo = [pe.Obs([x + relx * (abs(x) + 0.1) * rng.normal(size=20)], ['x%02d' % j]) for j, x in enumerate(xs)]
+                xo = [o - (o.value - x) for o, x in zip(xo, xs)]
+                [o.gamma_method() for o in xo]
+                got = _quiet(lambda: pe.fits.fit_lin(xo, ys, silent=True))
+                want = _quiet(lambda: pe.fits.total_least_squares(xo, ys, f, silent=True)).fit_parameters
+            else:
+                xarg = [float(x) for x in xs] if form == 'floats' else np.array(xs) if form == 'array' else [int(v) for v in range(1, npts + 1)]
+                got = _quiet(lambda: pe.fits.fit_lin(xarg, ys, silent=True))
+                want = _quiet(lambda: pe.fits.least_squares(np.asarray(xarg, dtype=float), ys, f, silent=True)).fit_parameters
+        except Exception as e:  # noqa: BLE001
+            if 'did not converge' in str(e):
+                continue
+            cases.append({'id': 'lin-%04d-%s' % (i, form), 'ev': 'same', 'what': 'fit_lin raised', 'rtol': '1/100000000', 'a': {'k': 'ok', 'p': []}, 'b': {'k': 'exc', 't': type(e).__name__}})
+            continue
+        cases.append({'id': 'lin-%04d-%s-slope%g-relx%g' % (i, form, slope, relx), 'ev': 'same',
+                      'what': 'fit_lin = total least squares for observable abscissae (ordinary fit for numbers)', 'rtol': '1/100000000',
+                      'a': {'k': 'ok', 'p': [project_obs(o) for o in got]}, 'b': {'k': 'ok', 'p': [project_obs(o) for o in want]}})
+        ctx.nontrivial.add(('lin', form, slope, relx))
+    return cases
+
+
 def run(ctx):
     rng = np.random.default_rng(ctx.seed)
     q = ctx.quick
@@ -202,5 +240,6 @@ def run(ctx):
         cases += r
         ntls += 1
     ctx.extra['discarded'] = discarded
+    cases += fitlin_cases(rng, 16 if q else 200, ctx)
     ctx.sample({'id': cases[0]['id'], 'model': cases[0].get('exprs')})
     ctx.validate('FitTrace', cases, timeout=3000)
